@@ -124,7 +124,16 @@ class PollBody:
         """Returns (idiom, detail) or (None, reason)."""
         P = self.pos
         reasons = []
-        # I3 delegation: under the Pending arm of an inner poll
+        # I5 dead arm: the None of DataSample::from_with_key (a dispose) on what the cache-based DataReader stream of a NO_KEY topic hands over; no dispose
+        # is ever in that cache (rules/nokeyinv.py), so this Pending is never constructed
+        if 'dds::no_key::datareader::' in self.b.key:
+            e5 = [(bb, tg) for bb, tg, cond, lab in self.edges
+                  if lab == 'None' and cond[0] == 'discr' and cond[1][0] == 'call' and cond[1][1].endswith(('::from_with_key', '::from_with_key_ref')) and
+                  term_has(cond[1], lambda x: x[0] == 'call' and x[1].rsplit('::', 1)[-1] in ('poll_next', 'poll_next_unpin'))]
+            if e5 and P.every_path_passes(None, site, via_edges=e5, from_entry=True):
+                from rules import nokeyinv
+                if nokeyinv.holds(self.fx):
+                    return 'I5-dead-arm', 'None of from_with_key: a dispose, which never enters the sample cache of a NO_KEY DataReader'
         e3 = [(bb, tg) for bb, tg, cond, lab in self.edges
               if lab == 'Pending' and cond[0] == 'discr' and poll_calls(cond[1])]
         if e3 and P.every_path_passes(None, site, via_edges=e3, from_entry=True):
